@@ -502,16 +502,12 @@ def np_round(eng, st, args, kw, node):
 
 def np_ceil(eng, st, args, kw, node):
     v = to_z3(args[0], REAL)
-    r = fresh('ceil', REAL)
-    st.pc.append(z3.And(r >= v, r < v + 1, z3.IsInt(r)))
-    return r
+    return -z3.ToReal(z3.ToInt(-v))          # ceil(v) = -floor(-v); z3's to_int is floor
 
 
 def np_floor(eng, st, args, kw, node):
     v = to_z3(args[0], REAL)
-    r = fresh('floor', REAL)
-    st.pc.append(z3.And(r <= v, r > v - 1, z3.IsInt(r)))
-    return r
+    return z3.ToReal(z3.ToInt(v))
 
 
 def np_sign(eng, st, args, kw, node):
